@@ -1,6 +1,8 @@
 package arraystack
 
 import (
+	vl "github.com/emirpasic/gods/v2/zzvlib"
+	"encoding/json"
 	"github.com/emirpasic/gods/v2/containers"
 	"github.com/emirpasic/gods/v2/lists/arraylist"
 	v "github.com/emirpasic/gods/v2/zzvsup"
@@ -30,4 +32,29 @@ func VHIter() {
 func VHSnap() {
 	c, _ := VGStack()
 	containers.VSnapStep(containers.VSnap{C: c, Mutate: []func(){c.Clear, func() { c.Push(v.Int("m")) }, func() { c.Pop() }}})
+}
+
+var _ = vl.Less
+
+func vJSON(c *Stack[int]) containers.VJSON {
+	return containers.VJSON{C: c, ToJSON: c.ToJSON, FromJSON: c.FromJSON,
+		Marshal: func() ([]byte, error) { return json.Marshal(c) },
+		Inv:     func() { v.Assert(c.list != nil, "inv-list") },
+		Step:    func() { x := v.Int("sx"); c.Push(x); y, ok := c.Peek(); v.Assert(v.And(ok, y == x), "C12:push-after-load") },
+		Fresh:   func() containers.VJSON { return vJSON(New[int]()) },
+		Ref: func(ks, xs []int) ([]int, []int) { return nil, vl.Reverse(xs) },
+		Drain: func() []int { var out []int; for { x, ok := c.Pop(); if !ok { return out }; out = append(out, x) } },
+	}
+}
+
+// VHJSONRound: ToJSON / json.Marshal / FromJSON round trip from an arbitrary state (C11).
+func VHJSONRound() {
+	c, _ := VGStack()
+	containers.VJSONRound(vJSON(c))
+}
+
+// VHJSONLoad: FromJSON of an arbitrary document into an arbitrary prior state (C12, C17).
+func VHJSONLoad() {
+	c, _ := VGStack()
+	containers.VJSONLoad(vJSON(c))
 }
